@@ -3,10 +3,12 @@ import gen_enums
 import gen_merge
 import gen_cmpchain
 import gen_attrs
+import gen_builder
 
 GENERATORS = {
     'enums': (gen_enums.gen, 'EnumTables.v'),
     'merge': (gen_merge.gen, 'Merge.v'),
     'cmpchain': (gen_cmpchain.gen, 'CmpChain.v'),
     'attrs': (gen_attrs.gen, 'AttrRules.v'),
+    'builder': (gen_builder.gen, 'BuilderConsts.v'),
 }
